@@ -39,6 +39,7 @@ type c03bHold struct {
 	held    chan struct{}
 	release chan struct{}
 	used    bool
+	matched string // the key of the operation that is held (valid once held is closed)
 }
 
 type c03bGate struct {
@@ -70,6 +71,7 @@ func (g *c03bGate) hook(tier, op, key string) error {
 		}
 		if key == x.key || (strings.HasSuffix(x.key, ":") && strings.HasPrefix(key, x.key)) {
 			x.used = true
+			x.matched = key
 			h = x
 			break
 		}
